@@ -48,7 +48,8 @@ PINNED = [
     ('client.py', 'SoulSeekClient', ['login', 'stop', '_on_server_reconnected']),
     ('network/network.py', 'Network', ['disconnect', '_server_connection_watchdog_job', 'get_listening_ports']),
     ('network/connection.py', 'DataConnection', ['disconnect', '_send', '_disconnect_detached']),
-    ('distributed.py', 'DistributedNetwork', ['_notify_server_of_parent', '_get_advertised_branch_values', 'stop']),
+    ('distributed.py', 'DistributedNetwork', ['_notify_server_of_parent', '_get_advertised_branch_values', 'stop',
+                                              '_notify_children_of_branch_values', 'send_messages_to_children']),
     ('user/manager.py', 'UserManager', ['track_user', 'track_friends', 'track_friend']),
     ('user/manager.py', 'UserTrackingManager', ['_request_tracking', '_on_state_changed', 'stop']),
     ('tasks.py', 'BackgroundTask', ['start', 'cancel']),
@@ -246,6 +247,16 @@ class Walker:
             return f'SetListenPort {self.val(args[0], local)} (if Nat.eqb {t} 0 then 0 else 1) {self.val(kw["obfuscated_port"], local)}'
         if m == 'SharedFoldersFiles' and not args and set(kw) == {'shared_folder_count', 'shared_file_count'}:
             return f'SharedFoldersFiles {self.val(kw["shared_folder_count"], local)} {self.val(kw["shared_file_count"], local)}'
+        if m == 'BranchLevel' and len(args) == 1 and isinstance(args[0], ast.Constant) and isinstance(args[0].value, int) and not kw:
+            return f'BranchLevel {args[0].value}'
+        if m == 'BranchRoot' and len(args) == 1 and not kw and _attr_chain(args[0]) in (['event', 'session', 'user', 'name'],
+                                                                                     ['self', '_session', 'user', 'name']):
+            return 'BranchRoot 0'
+        if m == 'ToggleParentSearch' and len(args) == 1 and not kw:
+            if isinstance(args[0], ast.Constant) and isinstance(args[0].value, bool):
+                return f'ToggleParentSearch {"true" if args[0].value else "false"}'
+            if _attr_chain(args[0]) == ['self', '_settings', 'debug', 'search_for_parent']:
+                return 'ToggleParentSearch true'      # debug.search_for_parent is left at its default (True) by the harness
         refuse(e, f'message {m} is not part of the burst model')
 
 
@@ -319,7 +330,8 @@ def translate(src: Path) -> dict:
     H = '_on_session_initialized'
     parts = [
         ('burst_network', Walker(network).walk(H)),
-        ('burst_distributed', Walker(dist, fixed={'_notify_server_of_parent': '[BranchLevel 0; BranchRoot 0; ToggleParentSearch true]',
+        ('burst_distributed', Walker(dist, fixed={'_notify_server_of_parent': '(match parent with None => [BranchLevel 0; BranchRoot 0; ToggleParentSearch true] '
+                                                                                 '| Some (lvl, root) => [BranchLevel (S lvl); BranchRoot root; ToggleParentSearch false] end)',
                                                       # sends to child connections only (repair 9a1d31a): nothing goes to the server
                                                       '_notify_children_of_branch_values': '[]'}).walk(H)),
         ('burst_users', Walker(users).walk(H)),
@@ -352,27 +364,71 @@ def translate(src: Path) -> dict:
             raise Refuse('unexpected watchdog statement on CONNECTED')
     if start_cond is None:
         raise Refuse('watchdog is not started on CONNECTED')
-    stops = []
-    for st in rest[0].body:
-        s_ = ast.unparse(st)
-        if 'watchdog' not in s_:
-            continue
-        node = st
-        while isinstance(node, ast.If):
-            t = ast.unparse(node.test)
-            if not t.startswith('close_reason == CloseReason.') or 'stop_server_connection_watchdog()' not in '\n'.join(ast.unparse(b) for b in node.body):
-                raise Refuse(f'watchdog stop condition: {t}')
-            stops.append(t.split('.')[-1])
-            if len(node.orelse) > 1:
-                raise Refuse('watchdog stop chain')
-            node = node.orelse[0] if node.orelse else None
-        if node is not None:
-            raise Refuse('watchdog stop chain tail')
-    REASON = {'REQUESTED': 'RRequested', 'EOF': 'REof', 'READ_ERROR': 'RRead', 'WRITE_ERROR': 'RWrite', 'TIMEOUT': 'RTimeout'}
-    for r in stops:
-        if r not in REASON:
-            raise Refuse(f'unknown close reason {r}')
-    kw_cases = ' '.join(f'| {REASON[r]} => false' for r in REASON if r in stops)
+    REASON = {'UNKNOWN': 'RUnknown', 'CONNECT_FAILED': 'RConnectFailed', 'REQUESTED': 'RRequested', 'READ_ERROR': 'RRead',
+              'WRITE_ERROR': 'RWrite', 'TIMEOUT': 'RTimeout', 'EOF': 'REof'}
+    conn_tree = P('network/connection.py')
+    enum_members = [t.id for st in find_class(conn_tree, 'CloseReason').body if isinstance(st, ast.Assign) for t in st.targets if isinstance(t, ast.Name)]
+    if sorted(enum_members) != sorted(REASON):
+        raise Refuse(f'CloseReason members changed: {enum_members}')
+    consts = {}
+    for st in network.body:      # class-level tuples of close reasons
+        tg = st.target if isinstance(st, ast.AnnAssign) else (st.targets[0] if isinstance(st, ast.Assign) and len(st.targets) == 1 else None)
+        v = getattr(st, 'value', None)
+        if isinstance(tg, ast.Name) and isinstance(v, (ast.Tuple, ast.List, ast.Set)):
+            names = [(_attr_chain(e) or ['', ''])[-1] for e in v.elts if (_attr_chain(e) or [''])[0] == 'CloseReason']
+            if len(names) == len(v.elts):
+                consts[tg.id] = names
+
+    def reasons_of(e):
+        if isinstance(e, (ast.Tuple, ast.List, ast.Set)):
+            out = []
+            for x in e.elts:
+                ch = _attr_chain(x)
+                if not ch or ch[0] != 'CloseReason' or ch[1] not in REASON:
+                    refuse(e, 'close reason collection')
+                out.append(ch[1])
+            return out
+        ch = _attr_chain(e)
+        if ch and ch[0] in ('self', 'Network') and len(ch) == 2 and ch[1] in consts:
+            return consts[ch[1]]
+        refuse(e, 'close reason collection')
+
+    def test_val(t, r):
+        if isinstance(t, ast.Compare) and len(t.ops) == 1 and _attr_chain(t.left) == ['close_reason']:
+            op, rhs = t.ops[0], t.comparators[0]
+            if isinstance(op, (ast.Eq, ast.NotEq)):
+                ch = _attr_chain(rhs)
+                if not ch or ch[0] != 'CloseReason' or ch[1] not in REASON:
+                    refuse(t, 'close reason test')
+                return (ch[1] == r) == isinstance(op, ast.Eq)
+            if isinstance(op, (ast.In, ast.NotIn)):
+                return (r in reasons_of(rhs)) == isinstance(op, ast.In)
+        if isinstance(t, ast.BoolOp):
+            vals = [test_val(v, r) for v in t.values]
+            return all(vals) if isinstance(t.op, ast.And) else any(vals)
+        if isinstance(t, ast.UnaryOp) and isinstance(t.op, ast.Not):
+            return not test_val(t.operand, r)
+        refuse(t, 'watchdog stop condition')
+
+    def run_block(body, r):
+        stopped = False
+        for st in body:
+            src_ = ast.unparse(st)
+            if isinstance(st, ast.If):
+                stopped |= run_block(st.body if test_val(st.test, r) else st.orelse, r)
+            elif src_ == 'self.stop_server_connection_watchdog()':
+                stopped = True
+            elif 'watchdog' in src_:
+                refuse(st, 'unexpected watchdog statement on CLOSING')
+            elif isinstance(st, ast.Expr) and isinstance(st.value, ast.Call) and (_is_logger(st.value) or src_ == 'self.stop_upnp_job()'):
+                pass
+            elif isinstance(st, ast.Expr) and isinstance(st.value, ast.Constant):
+                pass
+            else:
+                refuse(st, 'statement in the CLOSING branch')
+        return stopped
+
+    kw_cases = ' '.join(f'| {REASON[r]} => {"false" if run_block(rest[0].body, r) else "true"}' for r in REASON)
     cancel_all = ast.unparse(find_func(network.body, '_cancel_all_tasks'))
     stop_cancels_watchdog = 'self._connection_watchdog_task.cancel()' in cancel_all
 
@@ -390,12 +446,14 @@ def translate(src: Path) -> dict:
     text = ('(* GENERATED by /verif/translate/tr_session.py from client.py, network/network.py, user/manager.py, room/manager.py,\n'
             '   interest/manager.py, shares/manager.py, distributed.py -- do not edit; regenerated on every run. *)\n'
             'From Coq Require Import List Bool Arith.\nFrom Slsk Require Import C16.Types.\nImport ListNotations.\n\n'
-            'Section Burst.\n  Variable s : settings.\n  Variable ports : nat * nat.\n  Variable shares : nat * nat.\n\n')
+            '(* s = settings; ports = open listening ports; shares = (folders, files); parent = advertised (level, root) of the\n'
+            '   distributed parent, if any *)\n')
+    B = '(s : settings) (ports shares : nat * nat) (parent : option (nat * nat))'
     for name, items in parts:
-        text += f'  Definition {name} : list bmsg := {cat(items)}.\n'
-    text += ('\n  (* SessionInitializedEvent listeners in registration order: ' + ', '.join(MANAGER_ORDER) + ' *)\n'
-             '  Definition login_burst : list bmsg :=\n    ' + ' ++ '.join(n for n, _ in parts) + '.\nEnd Burst.\n\n'
-             f'Definition keeps_watchdog (r : reason) : bool := match r with {kw_cases} | _ => true end.\n'
+        text += f'Definition {name} {B} : list bmsg := {cat(items)}.\n'
+    text += ('\n(* SessionInitializedEvent listeners in registration order: ' + ', '.join(MANAGER_ORDER) + ' *)\n'
+             f'Definition login_burst {B} : list bmsg :=\n  ' + ' ++ '.join(f'{n} s ports shares parent' for n, _ in parts) + '.\n\n'
+             f'Definition keeps_watchdog (r : reason) : bool := match r with {kw_cases} end.\n'
              f'Definition watchdog_on_connect (auto : bool) : bool := {start_cond}.\n'
              f'Definition stop_cancels_watchdog : bool := {b(stop_cancels_watchdog)}.\n'
              f'Definition stop_stops_distributed : bool := {b(stop_stops_distributed)}.\n'
